@@ -638,7 +638,7 @@ func c15GenMalformed(r *rand.Rand, count func(string)) *c15Case {
 	case 0: // random bytes under a header-declared charset
 		n := verifh.Pick(r, []int{0, 1, 2, 3, 4, 5, 17, 64, 255, 511, 512, 513, 600})
 		body = verifh.RandBytes(r, n, verifh.Pick(r, []string{"", "", "\xd8\xdc\x00\x41\xff\xfe\xdb\xdf", "ab\x80\x81\xff"}))
-		label := verifh.Pick(r, []string{"utf-16le", "utf-16be", "utf-16", "windows-1252", "iso-8859-1", "gbk", "big5", "shift_jis", "euc-kr", "gb18030", "iso-2022-jp", "euc-jp", "replacement", "x-user-defined", "ibm437", "macintosh"})
+		label := verifh.Pick(r, []string{"utf-16le", "utf-16be", "utf-16", "windows-1252", "iso-8859-1", "gbk", "big5", "shift_jis", "euc-kr", "gb18030", "iso-2022-jp", "euc-jp", "replacement", "x-user-defined", "ibm437", "macintosh", "utf-7", "utf-32", "cesu-8", "x-unknown"})
 		c.ct = "text/html; charset=" + label
 		c.tag = "malformed/random-bytes/" + label
 		count("malformed:random-bytes")
